@@ -168,7 +168,7 @@ const (
 // knownLang is the reference's own knowledge of the codes used in the corpora (ISO 639-1, 639-3 and
 // 639-2 bibliographic codes with their 639-3 equivalents); only codes outside this table are looked
 // up through the library, so that a defect in the library's code table cannot hide from the reference.
-var knownLang = map[string]string{"nor": "nor", "no": "nor", "eng": "eng", "en": "eng", "swa": "swa", "sw": "swa", "fre": "fra", "fra": "fra", "fr": "fra", "ger": "deu", "deu": "deu", "de": "deu"}
+var knownLang = map[string]string{"nor": "nor", "no": "nor", "eng": "eng", "en": "eng", "swa": "swa", "sw": "swa", "swh": "swh", "fre": "fra", "fra": "fra", "fr": "fra", "ger": "deu", "deu": "deu", "de": "deu"}
 var knownBad = map[string]bool{"xx": true, "norsk": true, "": true, "n0r": true}
 
 func validLang(code string) (string, bool) {
